@@ -81,6 +81,7 @@ where
         let p = MArr2::product2(&w0.projection(), &w1.projection());
         let a = MArr2::from_fn(|d| w0.base_rate[d[0]] * w1.base_rate[d[1]]);
         let u = MArr2::<V, D0, D1>::indexes()
+            .filter(|&d| a[d] > V::zero())
             .map(|d| (p[d] - w0.b()[d[0]] * w1.b()[d[1]]) / a[d])
             .reduce(<V>::min)
             .unwrap();
@@ -99,6 +100,7 @@ where
         let p = MArr3::product3(&w0.projection(), &w1.projection(), &w2.projection());
         let a = MArr3::from_fn(|d| w0.base_rate[d[0]] * w1.base_rate[d[1]] * w2.base_rate[d[2]]);
         let u = MArr3::<V, D0, D1, D2>::indexes()
+            .filter(|&d| a[d] > V::zero())
             .map(|d| (p[d] - w0.b()[d[0]] * w1.b()[d[1]] * w2.b()[d[2]]) / a[d])
             .reduce(<V>::min)
             .unwrap();
